@@ -218,6 +218,13 @@ def np1d(name, L_):
     return t
 
 
+def npcol(name, L_):
+    """array-like filter argument given as an (L, 1) column array (the layout of the shipped DTCWT tables)"""
+    t = STensor((L_, 1), lambda idx, name=name: GS.atom(name, [idx[0]]), meta=dict(kind='np', dtype=prims.F64, name=name))
+    t.base.owner = 'arg:' + name
+    return t
+
+
 def _prepped(src, shape, axis, reverse, name=None):
     """tensor of `shape` whose entry a along `axis` is src[a] (or src[L-1-a])"""
     L_ = src.shape[0]
@@ -232,6 +239,8 @@ def _prepped(src, shape, axis, reverse, name=None):
 
 def _flat(v):
     if isinstance(v, STensor):
+        if v.ndim == 2 and is_conc(v.shape[1]) and v.shape[1] == 1:
+            return tget(v, (slice(None), 0))           # an (L, 1) column array stands for its L taps
         if v.ndim != 1:
             raise Unsupported('filter argument of rank %d' % v.ndim)
         return v
